@@ -547,7 +547,26 @@ func genC05(r *rng, tier string) *Case {
 		k = 0 // the less function only sees p while both lists still have elements: trigger on the first call
 	}
 	ks := "k"
-	f := func(x string) string { return faultExpr(fault, x, ks) }
+	// the fault may sit below many levels of operands: every level wraps the error once more
+	deep := 0
+	if fault != "runaway-slots" && fault != "runaway-fresh" && r.chance(0.15) {
+		deep = pick(r, 20, 40, 64)
+	}
+	deepKind := r.intn(3)
+	f := func(x string) string {
+		e := faultExpr(fault, x, ks)
+		if deep == 0 {
+			return e
+		}
+		switch deepKind {
+		case 0: // long left-associative chain with the fault leftmost
+			return "(" + e + strings.Repeat("+1", deep) + "-" + strconv.Itoa(deep) + ")"
+		case 1: // nested on the right
+			return "(" + strings.Repeat("1+(", deep) + e + strings.Repeat(")", deep) + "-" + strconv.Itoa(deep) + ")"
+		default: // at the bottom of a non-tail recursion
+			return "((g,n,y)->if n=0 then " + strings.ReplaceAll(e, x, "y") + " else 1+g(g,n-1,y))((g,n,y)->if n=0 then " + strings.ReplaceAll(e, x, "y") + " else 1+g(g,n-1,y)," + strconv.Itoa(deep) + "," + x + ")-" + strconv.Itoa(deep)
+		}
+	}
 	var body string
 	parallel := false
 	switch ctx {
@@ -888,6 +907,21 @@ func genC08(r *rng, tier string) *Case {
 			need = val(kk + 1)
 		}
 	}
+	// the consumer's own closure is slow (and counted): a consumer must evaluate it for the elements up to
+	// the decisive one and for no other, whatever a stage would do with a slow closure
+	if (term == "present" || term == "indexWhere") && second == "" && r.chance(0.25) {
+		ts := len(p.Stages)
+		if !compacted {
+			ts = len(p.Stages)
+		}
+		p.Term.Cost, p.Term.Probe = true, true
+		for len(costs) <= ts {
+			costs = append(costs, CostProf{})
+		}
+		costs[ts] = CostProf{Base: pick(r, int64(250_000), 400_000)}
+		x.TermProbe = ts
+		x.TermK = p.K
+	}
 	// a sparse filter upstream: behind the decisive element (plus a little slack) nothing passes any more,
 	// so a stop that only takes effect "at the next item" never takes effect on a huge source
 	if second == "" && !compacted && term != "multiUse" && term != "single" && r.chance(0.2) {
@@ -943,7 +977,8 @@ func genC08(r *rng, tier string) *Case {
 		// costs are zero: the pipeline stays sequential whatever NumCPU says
 		sim.NumCPU = pick(r, 1, 2, 4, 16)
 	}
-	if sim.Policy == "pct" || len(stalls) > 0 {
+	if sim.Policy == "pct" || len(stalls) > 0 || x.TermProbe > 0 {
+		// (a slow consumer lets the workers of a parallel stage run ahead like a stalled one does)
 		fair = false
 	}
 	x.Need, x.S, x.ParSt, x.Fair, x.Term = need, len(p.Stages)+1, parStages, fair, term
